@@ -188,6 +188,8 @@ def expr_text(e, ctx=None):
                 "setcomp": "list({_z: %s for _z in (1,)}.values())[0]", "paren": "(%s)"}[e["w"]] % inner
     if x == "attr":
         return "%s.%s" % (expr_text(e["e"]), e["a"])
+    if x == "skeys":
+        return "sorted(%s.keys())" % expr_text(e["e"])
     if x == "err":
         return {"type": "error.type.__name__", "lineno": "error.lineno", "offset": "error.offset",
                 "value": "type(error.value).__name__"}[e["f"]]
